@@ -25,7 +25,7 @@ impl Cfg {
         self.get(key).and_then(|v| v.parse().ok()).unwrap_or(default)
     }
     pub fn flag(&self, key: &str) -> bool {
-        self.extra.contains_key(key)
+        self.extra.get(key).map(|v| v != "0" && v != "false").unwrap_or(false)
     }
     /// seed of case i of this shard
     pub fn case_seed(&self, i: usize) -> u64 {
